@@ -1,11 +1,12 @@
 #!/bin/bash
 # usage: tools/lane_regress.sh <out file> <suffix...>: every confirmed seed of the given rounds applied in the lane, owner's quick check run there
 out=$1; shift
-: > $out
+touch $out
 for suffix in "$@"; do
   for id in $(seq -w 1 20 | sed 's/^/C/'); do
     d=/verif/seeded/$id-$suffix
     [ -f $d/patch.diff ] || continue
+    grep -q "^$id-$suffix " $out && continue
     /verif/tools/lane.sh clean
     if ! /verif/tools/lane.sh apply $d/patch.diff 2>/dev/null; then echo "$id-$suffix patch-does-not-apply" >> $out; continue; fi
     res=$(/verif/tools/lane.sh run $id quick 2>/dev/null); code=$?
